@@ -469,13 +469,9 @@ def nontrivial(inst):
 
 
 def small(inst):
-    """small enough for the brute-force optimum inside Coq"""
+    """small enough for the brute-force optimum inside Coq (all bipartitions x all transmission paths)"""
     nr, n, nt = len(inst["reads"]), len(inst["positions"]), len(inst["trios"])
-    if nt == 0:
-        return nr <= 7 and n <= 8 and inst["nind"] <= 2
-    if nt == 1:
-        return nr <= 5 and n <= 4
-    return nr <= 3 and n <= 2
+    return nr <= 9 and (4 ** nt) ** n * 2 ** nr <= (1 << 17)
 
 
 def inst_key(inst):
